@@ -1035,7 +1035,7 @@ def _init_machine_lemma(h, g):
 def _register(g):
     n = f"at{g}.airtouch"
     G = GEN[g]
-    oset(n + ".build-model.every-small-installation", ["C09"], [_fn(g, G["p_names"]), _fn(g, "_process_ac_ability_message")], tier="thorough",
+    oset(n + ".build-model.every-small-installation", ["C09", "C19"], [_fn(g, G["p_names"]), _fn(g, "_process_ac_ability_message")], tier="thorough",
          bounded=("every installation with 0..4 zones, 1..2 ACs, start / count 0..4" if g == 5 else
                   "every installation with 0..3 groups, 1..2 ACs, each with any bitmap over groups 0..3 or no bitmap and start / count 0..3")
          + ", consistent or not (complete enumeration inside the bound)")(lambda h: _build_model_exhaustive(h, g))
@@ -1066,7 +1066,9 @@ def _register(g):
          bounded="0..3 records per frame, entity ids 0..3")(lambda h: _dispatch(h, g))
     oset(n + ".dispatch-any-length", ["C10", "C09", "C12", "C14"], [_fn(g, "_process_ac_status_message"), _fn(g, "_process_ac_timer_status_message"),
                                                               _fn(g, G["p_zstatus"])])(lambda h: _dispatch_any(h, g))
-    oset(n + ".build-model", ["C09"], [_fn(g, G["p_names"]), _fn(g, "_process_ac_ability_message")],
+    # C19: AC -> zones membership is exposed by both generations; each model equals the reading of the installation,
+    # so equivalent installations give equal membership (seeded C19_12: empty AT4 bitmap read as absent)
+    oset(n + ".build-model", ["C09", "C19"], [_fn(g, G["p_names"]), _fn(g, "_process_ac_ability_message")],
          bounded="installations enumerated: 0..3 zones, 1..2 ACs, bitmap / single-AC / range layouts",
          assumptions=["self-consistent console: every group named in a bitmap or range has a name"])(lambda h: _build_model(h, g))
 
